@@ -63,6 +63,16 @@ func RunIso(c Case) int {
 		if ok && sid == k.sid && remote == reg && remote == k.local && local == srvNode {
 			res = "own"
 		}
+		// the envelope itself is the sender's too: odd-numbered clients send a delegation node and
+		// metadata of their own, even-numbered ones send neither
+		idx, _ := strconv.Atoi(strings.TrimPrefix(who, "k"))
+		if idx%2 == 1 {
+			if m.PP.Name != "deleg-"+who || m.Metadata["who"] != who {
+				res = "foreign"
+			}
+		} else if (m.PP != lime.Node{}) || len(m.Metadata) != 0 {
+			res = "foreign"
+		}
 		l.log(Event{K: "dispatch", G: who, I: i, Res: res})
 		r := &lime.Message{}
 		r.ID = "re:" + m.ID
@@ -109,7 +119,11 @@ func RunIso(c Case) int {
 			var t lime.Transport
 			var err error
 			for try := 0; try < 100; try++ {
-				switch k % 3 {
+				kind := k % 3
+				if cfg.Transport == "ws" { // every session over WebSocket (what the sessions share there, they share a lot)
+					kind = 1
+				}
+				switch kind {
 				case 0:
 					t, err = lime.DialTcp(ctx, tcpAddr, nil)
 				case 1:
@@ -165,6 +179,10 @@ func RunIso(c Case) int {
 				m := &lime.Message{}
 				m.ID = name + ":" + strconv.Itoa(i)
 				m.SetContent(lime.TextDocument("ask"))
+				if k%2 == 1 {
+					m.PP = lime.Node{Identity: lime.Identity{Name: "deleg-" + name, Domain: "example.com"}, Instance: "d"}
+					m.Metadata = map[string]string{"who": name}
+				}
 				sctx, scancel := context.WithTimeout(ctx, 5*time.Second)
 				_ = cc.SendMessage(sctx, m)
 				scancel()
